@@ -126,6 +126,33 @@ def _prob_object(env, kind, vals, req):
     raise ValueError(kind)
 
 
+CKINDS_SERIES = ["series", "series_rot", "series_rev", "series_gap", "series_big", "series_str"]
+
+
+def _choices_object(pd, np, ckind, labels):
+    """the `choices` argument: the option at POSITION j is labels[j] whatever the container and, for a Series, whatever its index"""
+    k = len(labels)
+    if ckind == "list":
+        return list(labels)
+    if ckind == "tuple":
+        return tuple(labels)
+    if ckind == "array":
+        return np.array(labels)
+    if ckind == "series":
+        return pd.Series(labels)
+    if ckind == "series_rot":      # integer labels 1, 2, …, k-1, 0: a permutation of the positions without fixed point
+        return pd.Series(labels, index=[(j + 1) % k for j in range(k)])
+    if ckind == "series_rev":      # k-1, …, 0
+        return pd.Series(labels, index=list(range(k))[::-1])
+    if ckind == "series_gap":      # 1, 3, 5, …: integer labels with gaps, 0 missing
+        return pd.Series(labels, index=[2 * j + 1 for j in range(k)])
+    if ckind == "series_big":      # 100, 101, …: no label is a position
+        return pd.Series(labels, index=[100 + j for j in range(k)])
+    if ckind == "series_str":
+        return pd.Series(labels, index=[f"opt{j}" for j in range(k)])
+    raise ValueError(ckind)
+
+
 def _prob_index(kind, req):
     return [req[i] for i in range(len(req))][::-1] if kind == "series_perm" else list(req)
 
@@ -200,8 +227,7 @@ def _run_ops(case):
                     o["r"] = "ok?"
                     continue
                 labels = [f"c{j}" for j in range(k)]
-                choices = {"list": labels, "tuple": tuple(labels), "array": np.array(labels),
-                           "series": pd.Series(labels)}[ckind]
+                choices = _choices_object(pd, np, ckind, labels)
                 p = None
                 if wspec is not None:
                     dim, cont, rows = wspec
@@ -403,7 +429,7 @@ class C05(Prop):
         r = rng.random()
         if n == 0:
             r = r * 0.3 if r < 0.6 else 0.5 + r * 0.18      # no simulant: only argument forms that have a shape without rows
-        ck = lambda: rng.choice(["list", "list", "tuple", "array", "series"])   # noqa: E731
+        ck = lambda: rng.choice(["list", "list", "tuple", "array"] + CKINDS_SERIES)   # noqa: E731
         cont = lambda: rng.choice(["list", "list", "array", "tuple"])           # noqa: E731
         if r < 0.12:
             ops.append(["choice", si, req, ck(), rng.choice([2, 4, 3, 5]), None, ak])
@@ -465,6 +491,11 @@ class C05(Prop):
                     ops.append(["choice", si, req, ck(), 3, [2, cont(), rows], ak])
             else:
                 ops.append(["choice", si, req, ck(), 3, [2, cont(), [self._unit_row(rng, 3)]], ak])
+        if ops and rng.random() < 0.6:
+            # the same decision with the choices in another container: list vs Series with its own index
+            base = ops[0]
+            other = rng.choice(CKINDS_SERIES) if base[3] in ("list", "tuple", "array") else "list"
+            ops.append(base[:3] + [other] + base[4:])
         return ops
 
     def _rchoice(self, rng, f9=False):
@@ -495,8 +526,8 @@ class C05(Prop):
         if rng.random() < 0.3 and scale == 1.0 / units and not f9:
             row = self._spell_residual(rng, row)
         if rng.random() < 0.5:
-            return ["rchoice", nums, k, [1, rng.choice(["list", "array"]), [row]], rng.choice(["list", "array", "tuple"])]
-        return ["rchoice", nums, k, [2, rng.choice(["list", "array"]), [row for _ in nums]], rng.choice(["list", "array"])]
+            return ["rchoice", nums, k, [1, rng.choice(["list", "array"]), [row]], rng.choice(["list", "array", "tuple"] + CKINDS_SERIES)]
+        return ["rchoice", nums, k, [2, rng.choice(["list", "array"]), [row for _ in nums]], rng.choice(["list", "array"] + CKINDS_SERIES)]
 
     def generate(self, rng: random.Random, i: int, tier: str):
         env = _c02.PROP._env(rng)
@@ -628,6 +659,13 @@ class C05(Prop):
                     ["choice", 1, req, "list", 3, [1, "list", [[H(0.25), H(0.0), H(0.75)]]], None],
                     ["choice", 1, req, "list", 3, [1, "list", [[H(1.0), H(0.0), H(3.0)]]], None],
                     ["choice", 1, req, "list", 3, [1, "list", [[_i(1), _i(0), _i(3)]]], None],
+                    # the choices as a Series with its own index: the option at POSITION k counts, whatever its label
+                    *[["choice", 1, req, ckd, 3, [1, "list", [[H(0.25), H(0.0), H(0.75)]]], None] for ckd in CKINDS_SERIES],
+                    *[["choice", 1, req, ckd, 3, [1, "list", [[H(0.0), H(0.5), H(0.5)]]], None] for ckd in CKINDS_SERIES],
+                    *[["choice", 1, req, ckd, 2, None, None] for ckd in CKINDS_SERIES],
+                    *[["choice", 1, req, ckd, 3, [2, "list", [[f"d:{i}", H(0.0), "R"] for i in range(n)]], None] for ckd in ("series_rot", "series_gap", "series_str")],
+                    *[["choice", 1, req, ckd, 2, [2, "array", [[_i(1), _i(3)], [_i(0), _i(4)], [_i(2), _i(2)], [_i(4), _i(0)], [_i(3), _i(1)], [_i(1), _i(1)]]], None]
+                      for ckd in ("series_rot", "series_rev", "series_big")],
                     ["choice", 1, req, "array", 3, [1, "array", [[_i(1), _i(0), _i(3)]]], None],
                     ["choice", 1, req, "list", 3, [1, "tuple", [[_i(2), _i(0), _i(6)]]], None],
                     ["choice", 1, req, "list", 2, [2, "array", [[_i(1), _i(3)], [_i(0), _i(4)], [_i(2), _i(2)], [_i(4), _i(0)], [_i(3), _i(1)], [_i(1), _i(1)]]], None],
@@ -652,6 +690,7 @@ class C05(Prop):
         env = {"mode": "direct", "crn": False, "clock": "simple", "size": 17, "pop": 2, "seed": [0, None], "streams": [["dp", None]], "labels": [0, 1]}
         out.append({"env": env, "ops": [
             ["rchoice", [1, T - 1] + edge(1, 4) + edge(1, 2) + edge(3, 4), 4, [1, "list", [[H(0.25)] * 4]], "list"],
+            *[["rchoice", [1, T - 1] + edge(1, 4) + edge(1, 2) + edge(3, 4), 4, [1, "list", [[H(1.0), H(1.0), H(0.0), H(2.0)]]], ckd] for ckd in CKINDS_SERIES],
             ["rchoice", [0, 1, T - 1] + edge(1, 4) + edge(1, 2), 4, [1, "list", [[H(1.0), H(1.0), H(0.0), H(2.0)]]], "array"],
             ["rchoice", [1, T - 1] + edge(1, 2), 3, [1, "list", [[H(0.0), H(4.0), H(4.0)]]], "list"],
             ["rchoice", [1, 2, T - 1] + edge(1, 8), 3, [1, "array", [[H(0.125), "R", H(0.0)]]], "tuple"],
@@ -946,7 +985,7 @@ class C05(Prop):
                     fail("choice-interval", f"{tag}: row {i} weights {[float(x) for x in row]}, draw {float(d)} picks {pick}, expected {want}")
                 break
             if kind == "choice":
-                choices.append((n, (si, o["step"], repr(ak), tuple(req)), rows, o))
+                choices.append((n, (si, o["step"], repr(ak), tuple(req)), rows, o, ckind))
         # monotonicity: same population and draws, pointwise larger argument
         for a in range(len(filters)):
             for b in range(len(filters)):
@@ -967,8 +1006,8 @@ class C05(Prop):
         # proportional weight matrices (rescaling, spelled-out residual) decide alike
         for a in range(len(choices)):
             for b in range(a + 1, len(choices)):
-                na, ka, ra, oa = choices[a]
-                nb, kb, rb, ob = choices[b]
+                na, ka, ra, oa, ca = choices[a]
+                nb, kb, rb, ob, cb = choices[b]
                 if ka != kb or len(ra) != len(rb):
                     continue
                 ds = _fr(oa["dhx"])
@@ -982,6 +1021,10 @@ class C05(Prop):
                             continue
                         if ds[i] == 0:
                             continue
+                        if x == y and ca != cb:
+                            fail("choice-depends-on-choices-container", f"ops #{na} (choices as {ca}) and #{nb} (choices as {cb}), row {i}: same weights "
+                                 f"{[float(t) for t in x]}, draw {float(ds[i])}: option at position {oa['picks'][i]} vs {ob['picks'][i]}")
+                            break
                         fail("choice-not-scale-invariant", f"ops #{na} and #{nb}, row {i}: weights {[float(t) for t in x]} vs {[float(t) for t in y]} "
                              f"(proportional), draw {float(ds[i])}: picks {oa['picks'][i]} vs {ob['picks'][i]}")
                         break
@@ -1039,6 +1082,7 @@ class C05(Prop):
             else:
                 wspec = op[3] if kind == "rchoice" else op[5]
                 t.append("weights:" + ("none" if wspec is None else f"{wspec[0]}d-{wspec[1]}"))
+                t.append("choices:" + (op[4] if kind == "rchoice" else op[3]))
                 if wspec is not None and all(c == "R" or c.startswith("i:") for r in wspec[2] for c in r):
                     t.append("dtype:int-weights")
                 whx = o.get("whx")
